@@ -229,6 +229,54 @@ def check (c):
         worst = max (worst, d / 1e-9)
         if d > 1e-9:
             bad ('far-medium', 'far-medium', 'form %s: a further medium beyond every reflection point (boundary %.4g, farthest reflection %.4g) changes the pattern by %.3g' % (name, far2, far, d), measured = d, allowed = 1e-9)
+    # ---- (e) a direction named with a negative zenith angle is the direction (|theta|, phi + 180): same gain,
+    # whichever medium its reflection points fall on
+    MM = common.repo ()
+    lam0 = gen.C_MHZ / mi.f
+    def table (m, zen, azi):
+        common.guarded (lambda: m.compute_far_field (MM.Angle (*zen), MM.Angle (*azi)), 'compute_far_field')
+        return 10 ** (np.array (m.far_field.gain) / 10)
+    for name in ('2med', '3med', 'rad', '1med'):
+        mo = pats [name][0]
+        tp = table (mo, (6.0, 15.5, 6), (183.0, 60.0, 6))
+        tn = table (mo, (-6.0, -15.5, 6), (3.0, 60.0, 6))
+        mon ['negative-zenith'] = mon.get ('negative-zenith', 0) + 1
+        d = float (np.abs (tp - tn).max () / tp.max ())
+        worst = max (worst, d / 1e-9)
+        if d > 1e-9:
+            bad ('negative-zenith', 'negative-zenith', 'form %s: gain at (-theta, phi) differs from (theta, phi + 180) by %.3g of the maximum' % (name, d), measured = d, allowed = 1e-9)
+    # ---- (f) an interface coordinate of exactly 0: a linear boundary through the origin is the boundary at c1
+    # seen from an antenna moved by -c1 along x; a circular boundary of radius 0 leaves the second medium only
+    def shifted (dx):
+        s = copy.deepcopy (spec)
+        for q in s ['geo']:
+            q ['p1'] = [q ['p1'][0] + dx] + list (q ['p1'][1:])
+            q ['p2'] = [q ['p2'][0] + dx] + list (q ['p2'][1:])
+        for q in (s.get ('src') or []) + (s.get ('loads') or []):
+            if 'at' in q:
+                q ['at'] = [q ['at'][0] + dx] + list (q ['at'][1:])
+        return s
+    if all (q ['k'] == 'w' for q in spec ['geo']):
+        med2 = [[g ['eps'], g ['sig'], 0.0, g ['c1']], [g ['eps2'], g ['sig2'], g ['h2']]]
+        ma, _, _ = solved (spec, med2, 'linear')
+        mb, _, _ = solved (shifted (-g ['c1']), [[g ['eps'], g ['sig'], 0.0, 0.0], [g ['eps2'], g ['sig2'], g ['h2']]], 'linear')
+        pa, pb = 10 ** (pattern (ma) [..., 2] / 10), 10 ** (pattern (mb) [..., 2] / 10)
+        mon ['boundary-at-zero'] = mon.get ('boundary-at-zero', 0) + 1
+        d = float (np.abs (pa - pb).max () / pa.max ())
+        # (the moved antenna has its currents to the accuracy of C05, not bit for bit)
+        worst = max (worst, d / 2e-3)
+        if d > 2e-3:
+            bad ('boundary-at-zero', 'boundary-at-zero', 'linear boundary at x = %.4g against the same boundary at x = 0 with the antenna moved by %.4g: pattern differs by %.3g of the maximum' % (g ['c1'], -g ['c1'], d), measured = d, allowed = 2e-3)
+    # (a reflection point at the origin itself belongs to the first medium: only for antennas off the vertical axis)
+    if min (float (np.hypot (q.point [0], q.point [1])) for q in mi.pulses) > 1e-6 * lam0:
+      mc, _, _ = solved (spec, [[g ['eps'], g ['sig'], 0.0, 0.0], [g ['eps2'], g ['sig2'], 0.0]], 'circular')
+      md, _, _ = solved (spec, [[g ['eps2'], g ['sig2'], 0.0]])
+      pc, pd = 10 ** (pattern (mc) [..., 2] / 10), 10 ** (pattern (md) [..., 2] / 10)
+      mon ['boundary-at-zero'] = mon.get ('boundary-at-zero', 0) + 1
+      d = float (np.abs (pc - pd).max () / pd.max ())
+      worst = max (worst, d / 1e-9)
+      if d > 1e-9:
+        bad ('boundary-at-zero', 'boundary-at-zero', 'circular boundary of radius 0: the pattern differs by %.3g of the maximum from the second medium alone' % d, measured = d, allowed = 1e-9)
     g0 = mi.geo [0]
     trivial = len (mi.geo) == 1 and abs (g0.p1 [0] - g0.p2 [0]) < 1e-12 and abs (g0.p1 [1] - g0.p2 [1]) < 1e-12
     sig = gen.signature (spec, mi, extra = [g ['boundary'], 'ld%d' % len (spec.get ('loads') or [])])
